@@ -993,6 +993,138 @@ def r17(ctx, rep):
     rep.check(ok, "of_first_from:first", "CidRedirector::of_first_from reads the redirects of the relation the pipeline starts from (`.first()?.as_from()?`)", file=of["file"], line=of["l"], fn=of["path"])
 
 
+class _NoEval(Exception):
+    pass
+
+
+def _int_eval(node, env):
+    """value of a side-effect-free integer expression over `env` (decided from the syntax tree: + - max min, comparisons, if/else)"""
+    k = node.get("k")
+    if k == "paren":
+        return _int_eval(node["e"], env)
+    if k == "lit" and node.get("t") == "int":
+        return int(str(node["v"]).replace("_", ""))
+    if k in ("path", "field"):
+        t = show(node)
+        if t in env:
+            return env[t]
+        raise _NoEval(t)
+    if k == "bin":
+        a, b = _int_eval(node["lhs"], env), _int_eval(node["rhs"], env)
+        op = node["op"]
+        table = {"+": lambda: a + b, "-": lambda: a - b, "*": lambda: a * b, "<": lambda: a < b, "<=": lambda: a <= b, ">": lambda: a > b, ">=": lambda: a >= b,
+                 "==": lambda: a == b, "!=": lambda: a != b, "&&": lambda: a and b, "||": lambda: a or b}
+        if op in table:
+            return table[op]()
+        raise _NoEval(op)
+    if k == "un" and node.get("op") == "!":
+        return not _int_eval(node["e"], env)
+    if k == "mcall" and node["m"] in ("max", "min") and len(node["a"]) == 1:
+        a, b = _int_eval(node["r"], env), _int_eval(node["a"][0], env)
+        return max(a, b) if node["m"] == "max" else min(a, b)
+    if k == "mcall" and node["m"] in ("saturating_add", "wrapping_add", "saturating_sub") and len(node["a"]) == 1:
+        a, b = _int_eval(node["r"], env), _int_eval(node["a"][0], env)
+        return a + b if "add" in node["m"] else max(a - b, 0)
+    if k == "call" and last_seg(show(node["f"])) in ("max", "min") and len(node["a"]) == 2:
+        a, b = _int_eval(node["a"][0], env), _int_eval(node["a"][1], env)
+        return max(a, b) if last_seg(show(node["f"])) == "max" else min(a, b)
+    if k == "if" and node["c"].get("k") != "let":
+        c = _int_eval(node["c"], env)
+        br = node["t"] if c else node.get("e")
+        if br is None:
+            return None
+        return _int_block(br, env)
+    if k == "block":
+        return _int_block(node, env)
+    raise _NoEval(k)
+
+
+def _int_block(block, env):
+    """executes assignments / lets / ifs of a block on `env`; returns the value of its tail expression (if any)"""
+    if block.get("k") != "block":
+        return _int_eval(block, env)
+    val = None
+    for st in block.get("s", []):
+        k = st.get("k")
+        if k == "assign":
+            env[show(st["lhs"])] = _int_eval(st["rhs"], env)
+        elif k == "assign_op" or (k == "bin" and st.get("op") in ("+=", "-=")):
+            tgt = show(st["lhs"])
+            d = _int_eval(st["rhs"], env)
+            env[tgt] = env[tgt] + d if st["op"].startswith("+") else env[tgt] - d
+        elif k == "local" and st["pat"].get("k") == "p_ident" and st.get("init") is not None:
+            env[st["pat"]["n"]] = _int_eval(st["init"], env)
+        elif k == "if":
+            val = _int_eval(st, env)
+        elif k == "macro" and st.get("n") in ("debug", "trace", "debug_assert"):
+            continue
+        else:
+            val = _int_eval(st, env)
+    return val
+
+
+def r18(ctx, rep):
+    """The SQL backend invents column and table ids of its own (sub-queries, row numbers, split columns). They come from generators that
+    are first moved past every id of the query: an id handed out twice makes two columns one."""
+    rep.rule("C01.R18", "ids generated in the SQL backend lie above every id of the relational query: `skip(id)` leaves next = max(next, id + 1), "
+             "the loader visits every column id and table id of the query, `gen` hands out next and moves on", floor=5)
+    syn = ctx.syn
+    sk = syn.fn("IdGenerator::skip", crate="prqlc")
+    params = [x["n"] for p_ in sk["params"] for x in walk(p_) if x.get("k") == "p_ident" and x["n"] != "self"]
+    ok, detail = True, []
+    try:
+        for nxt in range(0, 4):
+            for i in range(0, 4):
+                env = {"self.next_id": nxt, params[0]: i}
+                _int_block(sk["body"], env)
+                if env["self.next_id"] != max(nxt, i + 1):
+                    ok = False
+                    detail.append(f"next_id={nxt}, skip({i}) -> {env['self.next_id']}")
+    except (_NoEval, IndexError, KeyError) as e:
+        ok, detail = False, [f"not evaluable: {e!r}"]
+    rep.check(ok, "skip:max-of-next-and-id-plus-one", f"IdGenerator::skip(id) must leave `next_id = max(next_id, id + 1)` (evaluated on 0..3 x 0..3): {detail[:4]} - "
+              "otherwise the first generated id is one the query already uses", detail=detail[:8], file=sk["file"], line=sk["l"], fn=sk["path"])
+    g = syn.fn("IdGenerator::gen", crate="prqlc")
+    ok, detail = True, []
+    try:
+        for nxt in (0, 1, 5):
+            env = {"self.next_id": nxt}
+            stmts = g["body"].get("s", [])
+            body = {"k": "block", "s": [s_ for s_ in stmts if not (s_.get("k") == "call" and "from" in show(s_["f"]))]}
+            _int_block(body, env)
+            t = tail_expr(g["body"])
+            arg = t["a"][0] if t is not None and t.get("k") == "call" and len(t["a"]) == 1 else None
+            out = _int_eval(arg, env) if arg is not None else None
+            if env["self.next_id"] != nxt + 1 or out not in (nxt, nxt + 1):
+                ok = False
+                detail.append(f"next_id={nxt}: returns {out}, next_id becomes {env['self.next_id']}")
+    except (_NoEval, KeyError) as e:
+        ok, detail = False, [f"not evaluable: {e!r}"]
+    rep.check(ok, "gen:hands-out-next-and-advances", f"IdGenerator::gen returns `T::from(next_id)` and advances by one: {detail[:3]}", file=g["file"], line=g["l"], fn=g["path"])
+    # the loader
+    fns = {f["name"]: f for f in syn.fns if f["crate"] == "prqlc" and f["file"].endswith("utils/id_gen.rs") and f.get("self_short") == "IdLoader"}
+    for name, field, getter in (("fold_cid", "cid", None), ("fold_table", "tid", "id")):
+        f = fns.get(name)
+        if f is None:
+            rep.bad(f"loader:{name}", f"IdLoader::{name} not found: ids of that kind are not skipped", file=sk["file"], line=sk["l"], fn=sk["path"])
+            continue
+        prm = [x["n"] for p_ in f["params"] for x in walk(p_) if x.get("k") == "p_ident" and x["n"] != "self"]
+        skips = [n for n in f["body"].get("s", []) if n.get("k") == "mcall" and n["m"] == "skip" and show(n["r"]) == f"self.{field}"]
+        want = f"{prm[0]}.get()" if getter is None else f"{prm[0]}.{getter}.get()"
+        ok = len(skips) == 1 and show(skips[0]["a"][0]) == want
+        rep.check(ok, f"loader:{name}:skips-own-id", f"IdLoader::{name} calls `self.{field}.skip({want})` unconditionally (found {[show(x, maxdepth=6) for x in skips]})", file=f["file"], line=f["l"], fn=f["path"])
+        t = tail_expr(f["body"])
+        tt = show(t, maxdepth=6) if t is not None else ""
+        ok = tt == f"Ok({prm[0]})" if name == "fold_cid" else re.fullmatch(r"fold_table\(self, " + re.escape(prm[0]) + r"\)", tt) is not None
+        rep.check(ok, f"loader:{name}:continues", f"IdLoader::{name} returns the value unchanged" + (" and keeps folding inside the table (`fold_table(self, ..)`: the ids of nested relations)" if name == "fold_table" else "") + f"; found `{tt}`",
+                  file=f["file"], line=f["l"], fn=f["path"])
+    ld = syn.fn("IdGenerator::load", crate="prqlc")
+    t = show_stmts(ld["body"], maxdepth=10)
+    prm = [x["n"] for p_ in ld["params"] for x in walk(p_) if x.get("k") == "p_ident"]
+    rep.check(re.search(r"\.fold_query\(" + re.escape(prm[0]) + r"\)", t) is not None and "default()" in t, "load:folds-whole-query",
+              "IdGenerator::load starts from empty generators and folds the whole query through the loader", file=ld["file"], line=ld["l"], fn=ld["path"])
+
+
 def run(ctx, rep):
-    for r in (r1, r2, r3, r4, r5, r6, r7, r8, r9, r10, r11, r12, r13, r14, r15, r16, r17):
+    for r in (r1, r2, r3, r4, r5, r6, r7, r8, r9, r10, r11, r12, r13, r14, r15, r16, r17, r18):
         rep.guard(r, ctx)
